@@ -304,6 +304,18 @@ def run(ctx: Ctx):
         if o["session_exc"] or not o["R"] or any(r is not True for r in o["R"]):
             ctx.report(f"a snapshot with an Is(...) part evaluated repeatedly: comparisons gave {o['R']} (session: {o['session_exc']}) for `{body}`", {"kind": "dynamic", "body": body})
     ctx.coverage["oracle"]["dynamic_part_loops"] = len(DYNAMIC)
+    # the aggregate of a call site evaluated several times is built from the values AS THEY WERE COMPARED: the test mutates the compared object (or an
+    # object inside a compared tuple / namedtuple) between the evaluations
+    from . import c17
+    ms = [c17.gen_sched(ctx.rng, i) for i in range(24 if not ctx.thorough else 240)]
+    ms = [s_ for s_ in ms if s_["op"] in ("in", "le", "ge", "getitem", "eq_twice")]
+    for s_, o in zip(ms, pmap(c17.run_sched, ms, chunksize=4)):
+        ctx.count(("mutation", s_["source"]), True)
+        why = c17.judge_sched(s_, o)
+        if why:
+            ctx.report("C14 oracle: the aggregate over the evaluations of one call site is not built from the values that were compared: " + why,
+                       {"kind": "sched", "source": s_["source"], "op": s_["op"], "after": o.get("after")})
+    ctx.coverage["oracle"]["mutation_schedules"] = len(ms)
 
 
 def replay(ctx: Ctx, data):
@@ -312,6 +324,12 @@ def replay(ctx: Ctx, data):
         tw = run_twins(("create",))
         print(tw)
         return not tw["session_exc"] and "snapshot(1)" in tw["a"] and "snapshot(2)" in tw["a"] and "snapshot(20)" in tw["b"] and "snapshot(21)" in tw["b"]
+    if case.get("kind") == "sched":
+        from . import c17
+        s_ = {"op": case["op"], "source": case["source"]}
+        why = c17.judge_sched(s_, c17.run_sched(s_))
+        print("oracle:", why)
+        return why is None
     if case.get("kind") == "dynamic":
         o = run_dynamic(case["body"])
         print(o)
